@@ -647,6 +647,14 @@ def query_names(rep, ex: Explorer, cls=CI):
         for prefix in ("mv_", "mf_"):
             if prefix in quals or any(k.startswith(prefix[:2]) for k in quals):
                 pass
+        # computed names: an index that is an integer expression (a count, a position) can equal a key of the base
+        quals = _name_qualifiers(view(p.state, csp))
+        for prefix in ("mv_", "mf_"):
+            for q in quals.get(prefix, ()):
+                if q != "lit":
+                    n += 1
+                    rep.violation("KEY.no-reserved", site, f"query variable {prefix}<computed>", "the query's minimum variables cannot coincide with the variables mv_<key>/mf_<key> of a conditional (integer keys)",
+                                  extracted=f"index computed at run time ({q})", required="a non-integer index", function=site)
         lits = _literal_names(view(p.state, csp))
         for nm in lits:
             if nm.startswith("mv_") or nm.startswith("mf_"):
